@@ -84,6 +84,11 @@ impl Sim {
 }
 
 pub fn plan(conf: &SConf, sizes: &[SizeSpec]) -> (Vec<(usize, usize)>, u64, u64, bool) {
+    plan_capped(conf, sizes, 600_000)
+}
+
+/// `cap` bounds a single entry (Miri cases use a small one: compressing megabytes under an interpreter takes minutes)
+pub fn plan_capped(conf: &SConf, sizes: &[SizeSpec], cap: usize) -> (Vec<(usize, usize)>, u64, u64, bool) {
     let t = conf.effective_budget();
     let init = conf.init_cap.unwrap_or(if conf.allow_realloc { 131_072 } else { t }).max(16);
     let mut sim = Sim { buf: init.div_ceil(16) * 16, used: 0, bounds: 0, t, realloc: conf.allow_realloc, reallocs: 0, exact_fits: 0 };
@@ -105,7 +110,7 @@ pub fn plan(conf: &SConf, sizes: &[SizeSpec]) -> (Vec<(usize, usize)>, u64, u64,
             SizeSpec::EmptyVal(k) => *k as usize,
             SizeSpec::BothEmpty => 0,
         }
-        .min(600_000);
+        .min(cap);
         let (k, v) = match s {
             SizeSpec::EmptyKey(_) | SizeSpec::BothEmpty => (0, kv),
             SizeSpec::EmptyVal(_) => (kv, 0),
@@ -213,11 +218,93 @@ pub fn miri_case() -> BoxedStrategy<Case> {
     prop_oneof![3 => sorter, 1 => reader].boxed()
 }
 
+/// `n` cases for the Miri stage, generated natively and deterministically from the seed.
+pub fn miri_cases(seed: u64, n: u32) -> Vec<Case> {
+    use proptest::strategy::ValueTree;
+    use proptest::test_runner::{Config, RngSeed, TestRunner};
+    let mut runner = TestRunner::new(Config { rng_seed: RngSeed::Fixed(seed.wrapping_mul(7919).wrapping_add(0x6d69_7269)), failure_persistence: None, ..Config::default() });
+    let s = miri_case();
+    (0..n).map(|_| s.new_tree(&mut runner).expect("generation").current()).collect()
+}
+
+/// Engine E4 driver: runs the cases under `cargo +nightly miri run` on `procs` processes.
+pub fn miri_stage(seed: u64, n: u32, procs: usize, out: &mut crate::runner::ExtraOut) {
+    use std::process::Command;
+    let work = std::path::PathBuf::from(crate::runner::verif_dir()).join("target/miriwork");
+    let _ = std::fs::create_dir_all(&work);
+    let cases = miri_cases(seed, n);
+    let file = work.join(format!("cases-{seed}.json"));
+    std::fs::write(&file, serde_json::to_string(&cases).unwrap()).unwrap();
+    let run = |idx: usize, total: usize| {
+        Command::new("cargo")
+            .current_dir(format!("{}/harness", crate::runner::verif_dir()))
+            .env("MIRIFLAGS", "-Zmiri-disable-isolation")
+            .env("CARGO_NET_OFFLINE", "true")
+            .args(["+nightly", "miri", "run", "--target-dir"])
+            .arg(format!("{}/target/miri", crate::runner::verif_dir()))
+            .args(["--bin", "vmiri", "--"])
+            .arg(&file)
+            .arg(idx.to_string())
+            .arg(total.to_string())
+            .output()
+    };
+    // the first process also builds; an index beyond the list runs no case
+    match run(usize::MAX - 1, usize::MAX) {
+        Ok(o) if String::from_utf8_lossy(&o.stdout).contains("MIRI-DONE") => {}
+        Ok(o) => {
+            eprintln!("INCONCLUSIVE: Miri build/run failed: {}", String::from_utf8_lossy(&o.stderr).lines().rev().take(12).collect::<Vec<_>>().join(" | "));
+            out.inconclusive = true;
+            return;
+        }
+        Err(e) => {
+            eprintln!("INCONCLUSIVE: cannot start cargo miri: {e}");
+            out.inconclusive = true;
+            return;
+        }
+    }
+    let results: Vec<_> = std::thread::scope(|s| {
+        let hs: Vec<_> = (0..procs).map(|i| s.spawn(move || run(i, procs))).collect();
+        hs.into_iter().map(|h| h.join().unwrap()).collect()
+    });
+    let mut done = 0u64;
+    for r in results {
+        let Ok(o) = r else {
+            out.inconclusive = true;
+            continue;
+        };
+        let so = String::from_utf8_lossy(&o.stdout).to_string();
+        let se = String::from_utf8_lossy(&o.stderr).to_string();
+        let last_case = so.lines().filter_map(|l| l.strip_prefix("MIRI-CASE ")).filter_map(|v| v.trim().parse::<usize>().ok()).last();
+        if let Some(l) = so.lines().find(|l| l.starts_with("MIRI-DONE")) {
+            done += l.trim_start_matches("MIRI-DONE cases=").parse::<u64>().unwrap_or(0);
+            continue;
+        }
+        let case_json = last_case.and_then(|i| cases.get(i)).map(|c| serde_json::to_value(c).unwrap()).unwrap_or(serde_json::Value::Null);
+        if let Some(l) = so.lines().find(|l| l.starts_with("MIRI-ORACLE-FAIL")) {
+            out.violations.push((Fail::new("c17:miri:oracle", l.to_string()), case_json));
+        } else if se.contains("Undefined Behavior") || se.contains("error: memory leaked") || se.contains("error: unsupported operation") && !se.contains("can't call foreign function") {
+            let line = se.lines().find(|l| l.starts_with("error")).unwrap_or("error");
+            let at = se.lines().find(|l| l.trim_start().starts_with("-->")).unwrap_or("");
+            out.violations.push((
+                Fail::new("c17:miri:ub", format!("Miri: {line} {at} (case #{:?}; re-run: cd /verif/harness && MIRIFLAGS=-Zmiri-disable-isolation cargo +nightly miri run --target-dir /verif/target/miri --bin vmiri -- {} 0 1)", last_case, file.display())),
+                case_json,
+            ));
+        } else {
+            eprintln!("INCONCLUSIVE: a Miri process ended without a verdict: {}", se.lines().rev().take(8).collect::<Vec<_>>().join(" | "));
+            out.inconclusive = true;
+        }
+    }
+    out.evaluations += done;
+    out.nontrivial += done;
+    out.counters.insert("miri_cases".into(), done);
+    out.samples.push(serde_json::json!({"kind": "miri", "cases_executed_under_miri": done, "processes": procs, "first_case": cases.first()}));
+}
+
 /// Executes a case once without the checking allocator (Miri or a sanitizer is the oracle); content is still checked.
 pub fn run_plain(case: &Case) -> Check {
     match case {
         Case::Sorter { conf, kind, sizes, exit } => {
-            let (lens, _, _, _) = plan(conf, sizes);
+            let (lens, _, _, _) = plan_capped(conf, sizes, 6000);
             let inserts: Vec<(Vec<u8>, Vec<u8>)> = lens
                 .iter()
                 .enumerate()
@@ -302,6 +389,15 @@ impl Prop for C17 {
 
     fn fuzz_targets(&self) -> Vec<(&'static str, u64)> {
         vec![("fuzz_sorter", 40_000), ("fuzz_cursor", 25_000)]
+    }
+
+    fn extra(&self, tier: Tier, seed: u64, ctx: &crate::runner::ExtraCtx) -> crate::runner::ExtraOut {
+        let mut out = crate::runner::ExtraOut::default();
+        let n: u32 = std::env::var("VERIF_MIRI_CASES").ok().and_then(|s| s.parse().ok()).unwrap_or(tier.pick(0, 480));
+        if n > 0 {
+            miri_stage(seed, n, ctx.threads, &mut out);
+        }
+        out
     }
 
     fn run(&self, case: &Case, obs: &mut Obs) -> Check {
